@@ -3,7 +3,7 @@
    with its composition lemmas (no name generation here). *)
 From Coq Require Import List ZArith NArith String Ascii Bool Arith Lia Permutation.
 Import ListNotations.
-From Dagrt Require Import Lang LangProofs Sched Transform TransformSem TransformBasics.
+From Dagrt Require Import Lang LangProofs Sched Transform TransformSem TransformSide TransformBasics.
 
 Section Hoist.
   Variable F : string -> list val -> list (string * val) -> option (list val).
